@@ -134,8 +134,16 @@ def k_se3(run, case):
     ta = rng.normal(size=3) * 10.0**rng.uniform(-6, 9)
     tb = rng.normal(size=3) * 10.0**rng.uniform(-6, 9)
     A, B = L.se3(Ra, ta), L.se3(Rb, tb)
-    run.seen(case, core.digest(A, B), cls=["se3:" + _mag_class(ta)], sample={"A": A})
-    run.check(np.array_equal(A, rm.se3(Ra, ta)) and np.array_equal(L.so3_from_se3(A), Ra),
+    int_a = bool(rng.random() < .15)
+    if int_a:
+        # a hand-written axis-aligned pose with integer entries (as in evo's own tests), mixed with a float pose
+        Ra = gen.rot_of_class(rng, "quarter_turns")
+        Ra = np.round(Ra)
+        ta = rng.integers(-50, 50, size=3).astype(float)
+        A = np.round(rm.se3(Ra, ta)).astype(np.int64)
+    run.seen(case, core.digest(A, B), cls=["se3:" + _mag_class(ta)] + (["se3: integer-dtype pose mixed with float pose"] if int_a else []),
+             sample={"A": A})
+    run.check(int_a or np.array_equal(A, rm.se3(Ra, ta)) and np.array_equal(L.so3_from_se3(A), Ra),
               "se3 constructor", case, "se3(r,t) does not place r,t in the right blocks", A=A)
     Ai = L.se3_inverse(A)
     tolA = TOL * (1 + float(np.linalg.norm(ta)))
@@ -145,7 +153,7 @@ def k_se3(run, case):
     run.check(np.array_equal(Ai[3], [0, 0, 0, 1]), "inverse bottom row", case,
               "inverse has wrong bottom row", A=A)
     rel = L.relative_se3(A, B)
-    own = rm.se3_inv(A) @ B
+    own = rm.se3_inv(np.asarray(A, dtype=float)) @ B
     tol = TOL * (1 + float(np.linalg.norm(ta)) + float(np.linalg.norm(tb)))
     e = float(np.max(np.abs(rel - own)))
     run.note_max("max_err_relative_se3_over_scale", e / (tol / TOL))
